@@ -42,17 +42,18 @@ CLAIMED = {
             "Mtot is scipy.quad in the code (exact first moment in the model, 1e-4 budget); constants re-associated in the model (ℝ-equal).",
             "DESIGN §6 C11"),
     "C13": ("Lean 4 proof (bin-count division, linear/geometric spacing strictly increasing with exact end points, lookup = last lower "
-            "edge <= m with overflow check, truncation touches one upper edge, pack/unpack inverse for any sizes) + correspondence of "
-            "edges, carving, lookup, truncation on real MassBins for every nbins form",
-            "Theorem C13_partial; remnant carving and the NS-bin clause are decided by correspondence (model carve ops) and the sweep.",
-            "np.linspace/np.geomspace trusted to 1e-12 of the model formulas; carving modelled, not proved.",
+            "edge <= m with overflow check, truncation touches one upper edge, pack/unpack inverse for any sizes; star bins from increasing edges tile; exactly one "
+            "NS bin for a NS mass inside the range; WD bins tile up to the maximum WD mass, BH bins from the minimum BH mass) + "
+            "correspondence of edges, carving, lookup, truncation on real MassBins for every nbins form",
+            "Theorem C13_partial; the carving *model* is proved to tile, and tied to MassBins.__init__ by correspondence and the sweep.",
+            "np.linspace/np.geomspace trusted to 1e-12 of the model formulas; where the IFMR bounds come from is C09.",
             "DESIGN §6 C13"),
     "C01": ("Lean 4 proof that the closed form solves the model's ODE (HasDerivAt of A·Pk(α,1,l,m_to(t)) = the model derivative; deposit "
             "rate = retained flux; the Nmin residue m* and its two-sided bound; per-piece number and mass = interval integrals of the IMF "
             "density × linear remnant mass; turn-off breaks in the integration grid) + correspondence of the executable closed form "
             "(ClosedBin.stars / closedRemnants) with real EvolvedMF rows at tightened tolerance",
-            "Theorem C01_partial over every bin/slope/normalisation/lifetime row/time; uniqueness of the ODE solution and dopri5's convergence "
-            "are not proved (partial): the real rows at rtol=atol=1e-10 are compared with the Lean closed form to 3e-6 (numbers) / 1e-4 "
+            "Theorem C01_partial over every bin/slope/normalisation/lifetime row/time, including uniqueness for the draining star bin "
+            "(closed_star_unique); dopri5's convergence is not proved (partial): the real rows at rtol=atol=1e-10 are compared with the Lean closed form to 3e-6 (numbers) / 1e-4 "
             "(masses) of each class total, and the property's own predicate is evaluated at default and tightened tolerance with an "
             "independent quadrature oracle.",
             "dopri5 trusted as an approximate solver; IFMR and bins taken from the real sub-objects (C09/C10/C13); remnant deposit glued "
@@ -61,7 +62,9 @@ CLAIMED = {
     "C02": ("Lean 4 proof about the stellar-evolution derivative model (single turn-off bin = first bin whose upper edge has turned off "
             "and it contains the turn-off mass; flux ≤ 0; deposit = retention × flux in the IFMR's class and bin with the IFMR mass; "
             "conservation and mass-never-gained corollaries) + exact-support correspondence on synthetic and recorded ODE states",
-            "Theorem C02_partial over every state/layout/time; derivative tied to the code by comparing which entries are non-zero, the class, "
+            "Theorem C02_partial over every state/layout/time, with trajectory corollaries for exact solutions (objects conserved, star bins never "
+            "grow, mass never gained); the flux, both deposits and both conditions are the source's own expressions (translator + rfl "
+            "bridges); the rest of the derivative is tied to the code by comparing which entries are non-zero, the class, "
             "the bin index exactly and the values to 1e-11 (scale-aware) on >1800 states per quick run. Trajectory clauses are about exact "
             "solutions (partial); they are additionally observed on dopri5 output rows.",
             "IFMR functions enter the theorem as parameters (their range properties are C09); dopri5 trusted for the row-level sweep.",
@@ -69,9 +72,10 @@ CLAIMED = {
     "C03": ("Lean 4 proof of the escape derivative's identities (sums equal the rate in both branches and normalisations, uniform "
             "fractional loss before core collapse, support/mean preservation/weight integral/secant slope rule after it, zero rate) "
             "+ full-entry correspondence on both sides of the core-collapse time",
-            "Theorem C03_partial. The slope-implied mass change is only second-order accurate (known finding C03-slope-secant); the "
-            "time-integrated clause is checked on real runs.",
-            "Measured, not proved: slope-implied clause, N(t)=N0+∫rate on dopri5 output.",
+            "Theorem C03_partial: every element-wise entry of the derivative is the source's own expression (translator + bridges), the sum "
+            "identities hold for every state, and N(t1)=N(t0)+∫rate for exact solutions. The slope-implied mass change is only "
+            "second-order accurate (known finding C03-slope-secant).",
+            "Measured, not proved: slope-implied clause; N(t)=N0+∫rate on dopri5 output (integrator accuracy).",
             "DESIGN §6 C03"),
     "C19": ("Lean 4 proof that the nested BH-only derivative is the projection of the full stellar-evolution derivative (same turn-off bin, "
             "flux and definedness for every state; same BH entries up to the final age under full retention; nothing deposited afterwards), "
@@ -87,7 +91,7 @@ CLAIMED = {
             "binned initial values) under the explicit proviso that no 0.1-object comparison flips + real derivative/construction pairs",
             "Theorem C18_partial; on the real code: derivatives at (λy, λ·rate) vs λ·derivatives, construction pairs at tightened "
             "integrator tolerance, IMF-N0 irrelevance and from_powerlaw equivalence bit-for-bit.",
-            "Solutions scale only for exact solutions; dopri5 at default tolerance is not scale-free on remnant bins (pairs run at 1e-10).",
+            "A scaled exact solution is an exact solution (proved); dopri5 at default tolerance is not scale-free on remnant bins (pairs run at 1e-10).",
             "DESIGN §6 C18"),
     "C04": ("Lean 4 proof (row extraction defined and non-negative on non-negative states above Pk's resolution; summary views: equal "
             "lengths, m=M/N, exactly the populated bins in class order; ejection keeps non-negativity; lookup soundness) + extraction/view "
@@ -99,7 +103,8 @@ CLAIMED = {
     "C05": ("Lean 4 proof (star mean mass strictly inside the truncated bin from the moment integrals; cone invariant lo·N ≤ M ≤ hi·N under "
             "deposits and common-factor rescalings by induction over any update sequence; NS bins exact; empty bins report the centre; "
             "escape and ejection move a bin along its own ray) + sweep of ms/mr against bin edges on every row",
-            "Theorem C05_partial (discrete invariant); continuous forward invariance not formalised — rows of real constructions checked.",
+            "Theorem C05_partial: discrete invariant and forward invariance of the cone along exact solutions (integrating factor); a star bin "
+            "truncated to zero width reports its lower edge. Rows of real constructions (dopri5 output) are checked by the sweep.",
             "dopri5 output trusted only through the sweep.",
             "DESIGN §6 C05"),
     "C06": ("Lean 4 proof of the extraction loop with an abstract exact flow (loop invariant over any sorted grid: every requested age — "
@@ -126,9 +131,10 @@ CLAIMED = {
             "interpolation through knots with 0 < mf ≤ mi stays positive, ≤ progenitor and ≥ the table minimum, by induction over the knot "
             "list; analytic prescriptions at default parameters) + per-table kernel check (decide +kernel on the packed table, lifted by the "
             "proved decoder lemma check_sound) + correspondence of predict/predict_type, FITPACK, Polynomial",
-            "Theorem C09_partial; quick kernel-checks the tables of the sampled + default metallicities (28), thorough all 1186. WD degree-10 "
-            "polynomials' range is sampled densely (4400 masses per row), not bounded in Lean (partial).",
-            "FITPACK/Polynomial float evaluation trusted to 1e-12 (cond-aware); WD polynomial bounds measured.",
+            "Theorem C09_partial; quick kernel-checks the tables of the sampled + default metallicities (28), thorough all 1186. All seven WD "
+            "degree-10 polynomials are bounded in Lean on [0.7, m_max] (positive, <= progenitor, < 1.4) by kernel-checked Taylor-shift "
+            "bounds over Q regenerated from wdifmr.dat on every run.",
+            "FITPACK/Polynomial float evaluation trusted to 1e-12 (cond-aware); the run-time WD maximum (numerical critical points) is sampled.",
             "DESIGN §6 C09"),
     "C20": ("Lean 4 proof (moment helpers extracted from the source = ∫x^(-a), ∫x·x^(-a) for every exponent incl. 1 and 2; continuity "
             "constants; Σ piece probabilities = 1; inverse-CDF sampler stays inside its piece for every slope incl. 1; density positive; "
